@@ -402,6 +402,12 @@ def run_c09(tier_: str) -> int:
                     other = truth.get((api, ver, "response" if typ == "request" else "request"))
                     sib = index.load_response_from_request(cls) if typ == "request" else index.load_request_from_response(cls)
                     ok = ok and other is not None and sib is other[1]
+                    # ... which are documented to take an instance as well as its class
+                    spec_i = describe.spec_from_class(cls)
+                    inst = describe.tree_to_instance(spec_i, _minimal_tree(spec_i))
+                    sib_i = index.load_response_from_request(inst) if typ == "request" else index.load_request_from_response(inst)
+                    ok = ok and sib_i is other[1]
+                    res.count("sibling_lookups_by_instance")
                 # the same lookups spelled with keyword arguments (all-keyword and mixed), interleaved with the positional ones: how the
                 # arguments are passed must not matter
                 ok = ok and index.load_entity_schema(name=api, version=ver, entity_type=et) is cls
@@ -661,8 +667,8 @@ def run_c13(tier_: str) -> int:
     res = Result("C13", "exploration", tier_)
     from kio.serial import entity_reader, entity_writer
 
-    entity_reader.cache_clear()
-    entity_writer.cache_clear()
+    common.cold(entity_reader)
+    common.cold(entity_writer)
     rows: dict[str, int] = {}
     tagged = 0
     errs = refcodec.self_test()
